@@ -20,7 +20,7 @@ FORBIDDEN = re.compile(r'\bsorry\b|\badmit\b|^\s*axiom\s|native_decide|bv_decide
 ENV = dict(os.environ, CARGO_NET_OFFLINE='true')
 NCPU = os.cpu_count() or 4
 # properties whose case lines the translated-model driver drv_algo understands
-ALGO_PROPS = {'C01', 'C03', 'C04', 'C05', 'C06', 'C07', 'C08', 'C09', 'C10', 'C11', 'C12', 'C13', 'C16', 'C17', 'C18'}
+ALGO_PROPS = {'C01', 'C03', 'C04', 'C05', 'C06', 'C07', 'C08', 'C09', 'C10', 'C11', 'C12', 'C13', 'C14', 'C15', 'C16', 'C17', 'C18', 'C20'}
 
 
 def sh(cmd, cwd=None, timeout=None, input=None):
@@ -281,20 +281,24 @@ def check(pid, tier, seed):
         if 'Algo.lean' in regen.get('broken', {}):
             broken_ties.append('translator:Algo.lean: ' + regen['broken']['Algo.lean'])
         else:
-            # drv_algo2 (second batch of translated functions, Gen/Algo2.lean) is a superset of drv_algo;
-            # if the second batch does not translate or compile, fall back to the first and say so
-            algo_exe = 'drv_algo2'
+            # drv_algo3 ⊇ drv_algo2 ⊇ drv_algo (three batches of translated functions: Gen/Algo3.lean imports
+            # Algo2.lean imports Algo.lean); if a later batch does not translate or compile, fall back to the
+            # earlier one and say so
+            cascade = ['drv_algo3', 'drv_algo2', 'drv_algo']
+            if 'Algo3.lean' in regen.get('broken', {}):
+                broken_ties.append('translator:Algo3.lean: ' + regen['broken']['Algo3.lean'])
+                cascade = cascade[1:]
             if 'Algo2.lean' in regen.get('broken', {}):
                 broken_ties.append('translator:Algo2.lean: ' + regen['broken']['Algo2.lean'])
-                algo_exe = 'drv_algo'
-            ok_algo, out_algo = lake_build([algo_exe])
-            if not ok_algo and algo_exe == 'drv_algo2':
-                broken_ties.append('translated model Gen/Algo2.lean (regenerated from the current source) does not compile: ' + out_algo[-500:])
-                algo_exe = 'drv_algo'
-                ok_algo, out_algo = lake_build([algo_exe])
-            if not ok_algo:
-                broken_ties.append('translated model Gen/Algo.lean (regenerated from the current source) does not compile: ' + out_algo[-500:])
-            else:
+                cascade = ['drv_algo']
+            ok_algo, out_algo, algo_exe = False, '', cascade[-1]
+            for exe in cascade:
+                ok_algo, out_algo = lake_build([exe])
+                algo_exe = exe
+                if ok_algo:
+                    break
+                broken_ties.append('translated model behind %s (regenerated from the current source) does not compile: %s' % (exe, out_algo[-400:]))
+            if ok_algo:
                 _, averd = run_driver(pid, case_file, NCPU, exe_name=algo_exe)
                 adis = []
                 for line, v in zip(lines, averd):
@@ -437,7 +441,7 @@ def setup():
     targets = []
     for p in claimed:
         targets += ['BddVerif.Props.' + p, 'BddVerif.Audit.' + p, 'drv_' + p.lower()]
-    ok, out = lake_build(targets + ['drv_algo', 'drv_algo2'])
+    ok, out = lake_build(targets + ['drv_algo', 'drv_algo2', 'drv_algo3'])
     if not ok:
         print(out[-3000:])
         for p in claimed:
